@@ -54,7 +54,7 @@ def gen_case(rng, supervised, diagonal):
     init = gen.grid(A.T.dot(A) + np.eye(d), bits=5)
   else:
     init = init_kind
-  init_arg = init.copy() if isinstance(init, np.ndarray) else init          # what the estimator gets
+  init_arg = gen.layout(rng, init) if isinstance(init, np.ndarray) else init          # what the estimator gets (any memory layout)
   seed = int(rng.integers(1000))
   max_iter = int(rng.integers(1, 12))
   tol = float(rng.choice([1e-3, 1e-6]))
